@@ -382,8 +382,10 @@ def melody_range(ctx):
         else:
           ok = var == ps[1] and U.parent(m.node, g) is m.node
           why = 'the range check is not applied to the appended event unconditionally'
+    # positively identified: the (single, well-formed) range check exists but its loop can be left before all events were seen
+    located_early_exit = len(guards) == 1 and 'can be left early' in why
     ctx.ob('RANGE/melody-validated', m, guards[0] if guards else m.node, ok, 'Melody.%s checks every supplied event against MIN/MAX_MELODY_EVENT' % name if ok else
-           'Melody.%s: %s - an out-of-range event can be stored' % (name, why), construct='Melody.%s validates every event' % name)
+           'Melody.%s: %s - an out-of-range event can be stored' % (name, why), construct='Melody.%s validates every event' % name, definite=located_early_exit)
 
 
 # ------------------------------------------------------------------ retained side
@@ -413,16 +415,17 @@ def retained_side(ctx):
           stores.append((st, tgt))
     for st, tgt in stores:
       seen += 1
-      tests = U.enclosing_tests(m.node, st)
+      conds = U.path_conditions(m.node, st)      # enclosing tests and the negations of earlier early exits
       idx_ok = len(old) == 1 and norm_text(tgt.slice) == old[0]
-      grow = any(pol and has_cmp(t, '%s < %s' % (old[0] if old else '?', steps_p)) for (t, pol) in _flatten(tests))
-      right = any((not pol and norm_text(t) == left_p) or (pol and norm_text(t) == 'not ' + left_p) for (t, pol) in _flatten(tests))
+      grow = any(has_cmp_pol(t, pol, '%s < %s' % (old[0] if old else '?', steps_p)) for (t, pol) in conds)
+      right = any(not pol and norm_text(t) == left_p for (t, pol) in conds)
       ok = idx_ok and grow and right
       ctx.ob('RETAIN/override-store', m, st, ok,
              'the only element store is the first padded slot on the right (index %s under %s < %s and not %s)' % (old[0], old[0], steps_p, left_p) if ok else
              '%s.set_length stores into %s outside the first right-padded slot (index is old length: %s, guarded by growth: %s, guarded by not %s: %s): an event of the retained side can be overwritten'
              % (ci.qualname, norm_text(tgt), idx_ok, grow, left_p, right),
-             construct='%s.set_length: store %s only in the padded slot' % (ci.qualname, norm_text(tgt)))
+             construct='%s.set_length: store %s only in the padded slot' % (ci.qualname, norm_text(tgt)),
+             definite=len(old) == 1)     # the store and the old length were located; what is missing is a condition on the path to it
   ctx.require(seen >= 1, 'no set_length override with an element store found (Melody.set_length is expected)')
 
 
@@ -442,6 +445,13 @@ def _flatten(tests):
       res.append((t.operand, not pol))
     res.append((t, pol))
   return res
+
+
+def has_cmp_pol(test, pol, text):
+  try:
+    return nf.compare_equal(nf.compare_nf(test, None, pol), nf.compare_nf(E(text)))
+  except (nf.NFError, TypeError):
+    return False
 
 
 def has_cmp(test, text):
